@@ -30,6 +30,7 @@ ASSUMPTIONS = [
     "fewer than 2^31 iterations / events feed any pure counter (auto-classified class-B sites, listed in the evidence)",
 ]
 LEVEL = "other"
+SELFTEST_MAX = 5          # one whole-crate analysis per variant (~40 s each)
 
 FIELD_RANGES = {
     # (field,) or ("as:Variant", index) -> (lo, hi); each is CHECKED at every write / construction (class I sites)
